@@ -27,10 +27,10 @@ var Spec = engine.Spec{
 var ordered = map[string]bool{"protobom.protobom.Person.contacts": true}
 
 type value struct {
-	Label  string
-	Msg    proto.Message
-	Canon  string
-	PermOf int // index of the value this one is a permutation / sub-second variant of, or -1
+	Label   string
+	Msg     proto.Message
+	Canon   string
+	PermOf  int    // index of the value this one is a permutation / sub-second variant of, or -1
 	Crafted string // family name for crafted separator values
 }
 
@@ -115,7 +115,9 @@ func nodeValues(thorough bool) []value {
 }
 
 func collidingNode() *sbom.Node {
-	cs := func(p string) []string { return []string{p + "MIT", p + "mit", p + "Mit", p + "mit ", " " + p + "mit", p + "10", p + "9"} }
+	cs := func(p string) []string {
+		return []string{p + "MIT", p + "mit", p + "Mit", p + "mit ", " " + p + "mit", p + "10", p + "9"}
+	}
 	per := func(p string) []*sbom.Person {
 		return []*sbom.Person{{Name: p + "Bob", Email: "B@x"}, {Name: p + "bob", Email: "b@x"}, {Name: p + "BOB", Email: "b@x "}}
 	}
@@ -446,7 +448,9 @@ func stringContents(c *engine.Ctx) {
 			for i := range menu {
 				for j := range menu {
 					si, i, j := si, i, j
-					c.Case(func() any { return map[string]any{"kind": kind, "place": sl[si].Label, "first": menu[i], "second": menu[j]} }, func(t *engine.T) *engine.Violation {
+					c.Case(func() any {
+						return map[string]any{"kind": kind, "place": sl[si].Label, "first": menu[i], "second": menu[j]}
+					}, func(t *engine.T) *engine.Violation {
 						a, b := proto.Clone(base), proto.Clone(base)
 						sl[si].Set(a.ProtoReflect(), menu[i])
 						sl[si].Set(b.ProtoReflect(), menu[j])
